@@ -185,6 +185,19 @@ PAIR_VALUES = {'drm': ['all', 'playready', 'unknown-drm'], 'events': ['ping', 's
                'timeline': ['1'], 'depth': ['30', '0', '-5']}
 
 
+def all_pairs():
+    """The fixed interaction pairs plus (enabling option, every sub-option it unlocks): events=<type> x <type>__*, drm x <system>__*."""
+    pairs = list(PAIRS)
+    for n in option_names():
+        if '__' not in n:
+            continue
+        prefix = n.split('__')[0]
+        p = ('events', n) if prefix in ('ping', 'scte35') else (('drm', n) if prefix in ('playready', 'marlin', 'clearkey') else None)
+        if p and p not in pairs:
+            pairs.append(p)
+    return pairs
+
+
 def pair_item(arg):
     kind, path, pair, tier = arg
     w = W.World.shared(extras=True)
@@ -193,7 +206,7 @@ def pair_item(arg):
     W.set_now(NOW)
     a, b = pair
     for va in PAIR_VALUES.get(a, ['1']):
-        for vb in PAIR_VALUES.get(b, VALUES if tier != 'quick' else ['', '0', '-1', 'abc', '9' * 30, '1.5']):
+        for vb in PAIR_VALUES.get(b, VALUES if tier != 'quick' else ['', '0', '-1', 'abc', '9' * 30, '1.5', '\u00b2', 'PT5S', '2147483647']):
             url = with_query(path, {a: va, b: vb})
             r = w.get(url)
             acc.state((path, a, va, b, vb[:16]))
@@ -333,7 +346,7 @@ def run(ctx):
             raise core.HarnessError(f'C16: the base request {path} answers {r0.status}: the option code behind it would not be '
                                     f'reached')
     for kind, path in pair_routes:
-        for pair in PAIRS:
+        for pair in all_pairs():
             items.append(('pair', (kind, path, pair, ctx.tier)))
     for ch in core.chunks(routes if not ctx.quick else routes[::3], 6):
         items.append(('header', (ch, ctx.tier)))
@@ -349,10 +362,10 @@ def run(ctx):
         extra.update(ex)
     ctx.merge_all(ctx.pmap(_dispatch, items))
     ctx.extra.update(route_instances=len(routes), option_names=len(names), hostile_values=len(VALUES),
-                     option_pairs=len(PAIRS), **extra)
+                     option_pairs=len(all_pairs()), **extra)
     ctx.extra['levels_completed'] = ('hostile: deviation level 1 over every option name x value on every route instance'
                                      + (' (reduced option set on secondary routes)' if ctx.quick else '') +
-                                     ', level 2 on 16 option pairs x 6 routes; ' + extra.get('mp4_levels', '') + '; ' +
+                                     f', level 2 on {len(all_pairs())} option pairs x 7 routes; ' + extra.get('mp4_levels', '') + '; ' +
                                      extra.get('inject_levels', ''))
 
 
